@@ -9,11 +9,14 @@ Layer D (no event loop).  Case kinds
            go through from_dict(to_dict(x)).
   adv      BluetoothLEAdvertisementResponse -> BluetoothLEAdvertisement (special-cased converter).
   floats   float32 bit patterns through the single-precision fix: directly and through a model.
+  order    history independence: in a FRESH interpreter a list of model classes (base classes first,
+           arbitrary permutations) is instantiated before a fixed conversion battery runs.
 """
 from __future__ import annotations
 
 import dataclasses
 import math
+import os
 import struct
 
 from google.protobuf.descriptor import FieldDescriptor as FD
@@ -433,8 +436,88 @@ def shard_finish(stats, tier):
     stats.extra.update(_FLOAT_COUNT)
 
 
+# ------------------------------------------------------------------ history independence
+def battery() -> list[dict]:
+    """Fixed conversion battery used by the 'order' cases (every enum field x defined/undefined number, designated floats)."""
+    out = [c for c in enumerated("quick") if c["kind"] == "convert"]
+    T = tables()
+    for m in sorted(T["pairs"]):
+        d = getattr(T["pb"], m).DESCRIPTOR
+        if m in TOP_LEVEL_SKIP:
+            continue
+        spec = {}
+        for fd in d.fields:
+            if fd.type == FD.TYPE_FLOAT and not fd.is_repeated:
+                spec[fd.name] = {"f32": pbgen.f32_bits(0.1)}
+            elif fd.type == FD.TYPE_STRING and fd.is_repeated:
+                spec[fd.name] = ["a", "b"]
+        if spec:
+            out.append({"kind": "convert", "msg": m, "spec": spec})
+    return out
+
+
+def order_main() -> None:
+    """Runs in a FRESH interpreter: instantiate the named model classes first, then run the battery."""
+    import json
+    import sys
+
+    from vf import runner
+
+    runner.assert_code_under_test()
+    req = json.load(sys.stdin)
+    T = tables()
+    M = T["M"]
+    for name in req["first"]:
+        cls = getattr(M, name)
+        try:
+            cls()
+        except Exception:  # noqa: BLE001 – some models need arguments / a 2-element uuid; only the side effect matters
+            pass
+        for msg_name, mc in T["pairs"].items():
+            if mc is cls:
+                try:
+                    cls.from_pb(getattr(T["pb"], msg_name)())
+                except Exception:  # noqa: BLE001 – judged by the battery below
+                    pass
+    found = None
+    n = 0
+    for case in battery():
+        r = run_convert(case)
+        n += 1
+        if r.violations:
+            found = {"signature": r.violations[0].signature, "detail": r.violations[0].detail, "case": case}
+            break
+    json.dump({"n": n, "violation": found}, sys.stdout)
+
+
+def run_order(case: dict) -> CaseResult:
+    import json
+    import subprocess
+    import sys
+
+    from vf import runner
+
+    res = CaseResult()
+    env = dict(os.environ)
+    env["PYTHONPATH"] = os.pathsep.join([runner.ROOT, os.path.join(runner.ROOT, ".deps")] + ([env["PYTHONPATH"]] if env.get("PYTHONPATH") else []))
+    p = subprocess.run([sys.executable, "-c", "from vf.props import c14; c14.order_main()"], input=json.dumps({"first": case["first"]}),
+                       capture_output=True, text=True, env=env, cwd=runner.ROOT, timeout=600)
+    if p.returncode != 0:
+        raise HarnessError(f"C14 order subprocess failed: {p.stderr[-600:]}")
+    out = json.loads(p.stdout[p.stdout.index("{"):])
+    if out["violation"]:
+        v = out["violation"]
+        res.violations.append(V("c14:history-dependent:" + v["signature"].split(":", 1)[1], f"after instantiating {case['first']} first in a fresh process: {v['detail']} (case {v['case']})"))
+    res.nontrivial = True
+    res.classes = ["order"]
+    res.info = {"first": case["first"], "battery": out["n"]}
+    return res
+
+
 def run_case(case: dict) -> CaseResult:
     k = case["kind"]
+    if k == "order":
+        return run_order(case)
     if k == "schema":
         if case["what"] == "enum":
             return CaseResult(violations=check_enum(case["name"]), nontrivial=True, classes=["schema_enum"], info={"enum": case["name"], "wire": sorted(tables()["enum_pair"].get(case["name"], ()))})
@@ -505,9 +588,24 @@ def _float_bits():
     return st.one_of(pbgen.f32_bits_strategy(), p10.map(lambda b: b & 0xFFFFFFFF), strat, strat)
 
 
+def model_class_names() -> list[str]:
+    T = tables()
+    M = T["M"]
+    return sorted(n for n, c in vars(M).items() if isinstance(c, type) and dataclasses.is_dataclass(c) and issubclass(c, M.APIModelBase))
+
+
 def strategy(tier):
-    return st.one_of(_convert(tier), _convert(tier), _convert(tier), _adv(tier),
+    conv = st.one_of(_convert(tier), _convert(tier), _convert(tier), _adv(tier),
                      st.lists(_float_bits(), min_size=8, max_size=64).map(lambda b: {"kind": "floats", "bits": b}))
+    # rarely (each costs a fresh interpreter): conversions must not depend on which model classes were used first
+    order = st.lists(st.sampled_from(model_class_names()), min_size=1, max_size=6, unique=True).map(lambda f: {"kind": "order", "first": f})
+    @st.composite
+    def mix(draw):
+        if draw(st.integers(0, 299)) == 137:  # (mid-range value: Hypothesis over-samples the bounds)
+            return draw(order)
+        return draw(conv)
+
+    return mix()
 
 
 def enumerated(tier):
@@ -527,6 +625,13 @@ def enumerated(tier):
                 for n in nums + [max(nums) + 1, 99, -1]:
                     yield {"kind": "convert", "msg": m, "spec": {fd.name: [n, n] if fd.is_repeated else n}}
         yield {"kind": "convert", "msg": m, "spec": {}}
+    # history independence: base classes / arbitrary classes instantiated first in a fresh interpreter
+    names = model_class_names()
+    orders = [["EntityState"], ["EntityInfo"], ["EntityInfo", "EntityState", "APIModelBase"], ["APIModelBase"], names[::-1][:12], names[:12], ["SensorState", "EntityState", "SensorInfo"]]
+    if tier == "thorough":
+        orders += [[n] for n in names]
+    for o in orders:
+        yield {"kind": "order", "first": [n for n in o if n in names or n == "APIModelBase"]}
     # float sweep: stratified bit patterns
     total = 2**18 if tier == "quick" else 2**28
     chunk = 2**13 if tier == "quick" else 2**20
